@@ -3,6 +3,9 @@ import Logrange.Proofs.WriteLoopHull
 import Logrange.Proofs.ChunkHist
 import Logrange.Proofs.PointsMerge
 import Logrange.Proofs.PartScan
+import Logrange.Proofs.RebuildHist
+import Logrange.Proofs.ITree
+import Logrange.Proofs.PartHist
 import Logrange.Model.RangedIter
 /-!
 # C02 — Time-range queries return exactly the events whose timestamp is in range
@@ -367,6 +370,154 @@ theorem range_eq_filter_partition_monotone (sparse bigGap : Nat) (ts : Nat → N
 example : PartScan.scanAll [⟨2, 4, 10⟩, ⟨4294967295, 4294967295, 5⟩, ⟨0, 4294967295, 3⟩] =
     [(0, 2), (0, 3), (0, 4), (2, 0), (2, 1), (2, 2)] := by decide
 
+/-! ## rebuilds: the exclusive-end index, stated in the form it satisfies -/
+
+/-- what the two look-ups need — every index point separates the chunk's positions by its timestamp — follows from
+`IndexSound` … -/
+theorem lookupSound_of_indexSound {tsOf : Nat → Int} {n : Nat} {pts : List Pt} (hs : IndexSound tsOf n pts) :
+    RebuildHist.LookupSound tsOf n pts :=
+  RebuildHist.lookupSound_of_indexSound hs
+
+/-- … and suffices for the completeness of every window -/
+theorem window_complete_of_lookup {tsOf : Nat → Int} {n : Nat} (h : Hull) (idx : Option (List Pt)) (r : TmRange)
+    (hh : HullSound h tsOf n) (hi : ∀ pts, idx = some pts → RebuildHist.LookupSound tsOf n pts) (hn : n ≤ maxU32)
+    (hmin : minI64 ≤ h.minTs) (p : Nat) (hp : p < n) (hr : inRange r (tsOf p)) : inWindow (window h idx r) p :=
+  RebuildHist.window_complete_of_lookup h idx r hh hi hn hmin p hp hr
+
+/-- **rebuild_sound**: the index `rebuildIndexInt` builds from the first `m` CONFIRMED records of a chunk holding `n`
+monotone int64 records (segments of `sparseSpace` records, each recorded at its EXCLUSIVE end position with its maximum,
+segment maximum starting at the regenerated `rebuildSegmentMaxInit` = MinInt64) is `LookupSound` over all `n` records.
+It does not satisfy `IndexSound`'s closed-right claim (see the example in `Proofs/RebuildHist.lean`). -/
+theorem rebuild_sound {tsOf : Nat → Int} {n m : Nat} (hmono : Monotone tsOf n) (hmn : m ≤ n)
+    (hlow : ∀ q, q < n → minI64 ≤ tsOf q) (hhi : ∀ q, q < n → tsOf q ≤ RebuildHist.maxI64) :
+    RebuildHist.LookupSound tsOf n
+      (RebuildHist.rebuildPts Generated.C02.sparseSpace Generated.C02.rebuildSegmentMaxInit ((List.range m).map tsOf)) := by
+  have f : Generated.C02.rebuildSegmentMaxInit = minI64 := by decide
+  exact RebuildHist.rebuild_sound _ hmono hmn (by rw [f]; exact hlow) hhi
+
+/-- **window_complete_with_rebuilds**: one chunk, any history of OnWrite notifications (hulls as the write loop reports
+them, `RollHull`: exact, or with the call's over-wide minimum on the first notification of a chunk) AND index rebuilds of
+any confirmed prefix, on monotone int64 data, with the constants of the code: every window is complete. -/
+theorem window_complete_with_rebuilds {tsOf : Nat → Int} (ops : List RebuildHist.Op)
+    (hm : Monotone tsOf (RebuildHist.totalOps ops)) (he : RebuildHist.OpsExact tsOf 0 ops)
+    (hn : RebuildHist.totalOps ops ≤ maxU32) (hlow : ∀ q, q < RebuildHist.totalOps ops → minI64 ≤ tsOf q)
+    (hhi : ∀ q, q < RebuildHist.totalOps ops → tsOf q ≤ RebuildHist.maxI64) (r : TmRange) (p : Nat)
+    (hp : p < RebuildHist.totalOps ops) (hr : inRange r (tsOf p)) :
+    ∃ h, (RebuildHist.runOps Generated.C02.sparseSpace (Generated.C02.sparseSpace * Generated.C02.bigGapFactor)
+          Generated.C02.rebuildSegmentMaxInit tsOf ops).hull = some h ∧
+      inWindow (window h (ChunkHist.idxOf (RebuildHist.runOps Generated.C02.sparseSpace
+        (Generated.C02.sparseSpace * Generated.C02.bigGapFactor) Generated.C02.rebuildSegmentMaxInit tsOf ops)) r) p :=
+  RebuildHist.window_complete_with_rebuilds_code ops hm he hn hlow hhi r p hp hr
+
+/-- the index state of a chunk after its history of writes and rebuilds, as the selector sees it -/
+def metaOfOps (tsOf : Nat → Int) (ops : List RebuildHist.Op) : PartScan.ChunkMeta :=
+  let c := RebuildHist.runOps Generated.C02.sparseSpace (Generated.C02.sparseSpace * Generated.C02.bigGapFactor)
+    Generated.C02.rebuildSegmentMaxInit tsOf ops
+  { n := RebuildHist.totalOps ops, hull := c.hull.getD ⟨0, 0⟩, idx := ChunkHist.idxOf c }
+
+/-- the chunks `k, k+1, …` of the partition: each written and rebuilt by a history over monotone int64 data -/
+def MonotoneChunkOps (ts : Nat → Nat → Int) : List (List RebuildHist.Op) → Nat → Prop
+  | [], _ => True
+  | ops :: rest, k =>
+    (Monotone (ts k) (RebuildHist.totalOps ops) ∧ RebuildHist.OpsExact (ts k) 0 ops ∧ RebuildHist.totalOps ops ≤ maxU32 ∧
+      (∀ q, q < RebuildHist.totalOps ops → minI64 ≤ ts k q) ∧
+      (∀ q, q < RebuildHist.totalOps ops → ts k q ≤ RebuildHist.maxI64)) ∧ MonotoneChunkOps ts rest (k + 1)
+
+/-- the chunk metas of a partition whose chunk `k + i` has the history `opss[i]` -/
+def metasOfOps (ts : Nat → Nat → Int) : List (List RebuildHist.Op) → Nat → List PartScan.ChunkMeta
+  | [], _ => []
+  | ops :: rest, k => metaOfOps (ts k) ops :: metasOfOps ts rest (k + 1)
+
+theorem allComplete_of_monotoneChunkOps (ts : Nat → Nat → Int) : ∀ (opss : List (List RebuildHist.Op)) (k : Nat),
+    MonotoneChunkOps ts opss k → PartScan.AllComplete ts (metasOfOps ts opss k) k := by
+  intro opss
+  induction opss with
+  | nil => intro k _; trivial
+  | cons ops rest ih =>
+    intro k h
+    obtain ⟨⟨hm, he, hn, hlow, hhi⟩, hrest⟩ := h
+    refine ⟨?_, ih (k + 1) hrest⟩
+    intro r p hp hr
+    obtain ⟨h, hh, hw⟩ := window_complete_with_rebuilds ops hm he hn hlow hhi r p hp hr
+    simp only [metaOfOps, hh, Option.getD_some]
+    exact hw
+
+/-- **range_eq_filter_partition_with_rebuilds**: whole partition, every chunk with any history of writes and rebuilds
+over monotone int64 data: ranged read = filter of the unbounded read, for every range. -/
+theorem range_eq_filter_partition_with_rebuilds (ts : Nat → Nat → Int) (opss : List (List RebuildHist.Op))
+    (h : MonotoneChunkOps ts opss 0) (r : TmRange) :
+    PartScan.rangedRead ts (metasOfOps ts opss 0) r =
+      (PartScan.fullPositions (metasOfOps ts opss 0) 0).filter (fun kp => decide (inRange r (ts kp.1 kp.2))) :=
+  range_eq_filter_partition ts _ r (allComplete_of_monotoneChunkOps ts opss 0 h)
+
+/-! ## the headline: every monotone history of Write calls, whole partition -/
+
+/-- **range_eq_filter_calls** — C02 on monotone data, end to end at the Points level. For EVERY history of
+`Service.Write` calls on an empty partition — any batch sizes, any split of a call over chunks (roll-over: one
+notification per chunk with the hull `iwrapper` accumulated over the call so far; the over-wide minimum of later chunks
+included), any sparsity constants — whose records are monotone non-decreasing int64 timestamps in stored order:
+the ranged read over the whole partition (per-chunk windows from hull and index, selector/iterator stepping chunk by
+chunk, `fitInRange` re-check) equals the filter of the unbounded read, for every range `r`. -/
+theorem range_eq_filter_calls (sparse bigGap : Nat) (calls : List (List PartHist.Piece))
+    (hok : PartHist.CallsOK sparse bigGap [] calls) (hsorted : (PartHist.allTs calls).Pairwise (· ≤ ·))
+    (hlow : ∀ t ∈ PartHist.allTs calls, minI64 ≤ t)
+    (hsize : ∀ c ∈ PartHist.runCalls sparse bigGap calls, c.tss.length ≤ maxU32) (r : TmRange) :
+    PartScan.rangedRead (PartHist.partTs (PartHist.runCalls sparse bigGap calls))
+        ((PartHist.runCalls sparse bigGap calls).map PartHist.metaOf) r =
+      (PartScan.fullPositions ((PartHist.runCalls sparse bigGap calls).map PartHist.metaOf) 0).filter
+        (fun kp => decide (inRange r (PartHist.partTs (PartHist.runCalls sparse bigGap calls) kp.1 kp.2))) :=
+  PartHist.range_eq_filter_calls sparse bigGap calls hok hsorted hlow hsize r
+
+/-- nothing is lost or reordered by the write side: the chunks hold the history's records in order -/
+theorem calls_stored_in_order (sparse bigGap : Nat) (calls : List (List PartHist.Piece))
+    (hok : PartHist.CallsOK sparse bigGap [] calls) (hsorted : (PartHist.allTs calls).Pairwise (· ≤ ·))
+    (hlow : ∀ t ∈ PartHist.allTs calls, minI64 ≤ t) :
+    ((PartHist.runCalls sparse bigGap calls).map (·.tss)).flatten = PartHist.allTs calls :=
+  PartHist.allTs_eq sparse bigGap calls hok hsorted hlow
+
+/-! ## the block tree answers like the flat point list -/
+
+/-- **tree_eq_points_level0**: one level-0 block. `block.addInterval` (all three cases) is `Points.add` on the block's
+records — or `errFullBlock`, exactly when the block holds `maxRecs` records and the append case applies — and
+`grEq`/`less` are `Points.grEqPos`/`Points.lessPos` (incl. the `errAllMatches` answers). -/
+theorem tree_eq_points_level0 (maxRecs d : Nat) (recs : List Pt) (it : Iv) (hlen : recs.length ≠ 1) :
+    (ITree.blockAdd maxRecs (d+1) (.leaf recs) it =
+      if recs.length = maxRecs ∧ Points.cntLE recs it.p0.ts = recs.length then (.leaf recs, Points.lastD recs, some .full)
+      else (.leaf (Points.add recs it), Points.lastD (Points.add recs it), none)) ∧
+    (∀ t, (recs ≠ [] → (ITree.grEq (.leaf recs) t = none ↔ Points.cntLE recs t = 0)) ∧
+          (∀ r, ITree.grEq (.leaf recs) t = some r → r.idx = Points.grEqPos recs t) ∧
+          (ITree.less (.leaf recs) t).map (·.idx) = Points.lessPos recs t ∧
+          (ITree.less (.leaf recs) t = none ↔ Points.cntLE recs t = recs.length)) :=
+  ITree.tree_eq_points_level0 maxRecs d recs it hlen
+
+/-- **tree_append_refines**: at ANY depth, for a well-formed tree and an interval that starts at or above every indexed
+timestamp (what monotone streams produce, `append_case_of_monotone`), `ckindex.addInterval` never fails, keeps the tree
+well-formed and extends its level-0 point list exactly like `Points.add` (new leaves start with the last record of the
+full leaf: one new point). `maxRecs` is the code's records-per-block (41, regenerated). -/
+theorem tree_append_refines (t : ITree.T) (it : Iv) (hwf : ITree.WF ITree.maxRecs t) (hao : ITree.AppendOnly t it)
+    (h01 : it.p0.ts ≤ it.p1.ts) :
+    ∃ t', ITree.add ITree.maxRecs t it = some t' ∧ ITree.WF ITree.maxRecs t' ∧
+      ITree.points t' = Points.add (ITree.points t) it :=
+  ITree.tree_append_refines_add ITree.maxRecs (by decide) t it hwf hao h01
+
+/-- whole append-only streams from the empty tree: the tree's points are the flat fold -/
+theorem tree_append_stream (its : List Iv) (hs : ITree.Stream [] its) :
+    ∃ t', ITree.addAll ITree.maxRecs (.leaf []) its = some t' ∧ ITree.WF ITree.maxRecs t' ∧
+      ITree.points t' = its.foldl Points.add [] := by
+  have e : ITree.points (.leaf []) = [] := by decide
+  have := ITree.tree_append_stream ITree.maxRecs (by decide) its (.leaf []) (Or.inl rfl) (by rw [e]; exact hs)
+  rw [e] at this
+  exact this
+
+/-- **tree_lookup_eq_points**: on a well-formed tree of any depth `grEq`/`less` descend to exactly the answers of the
+flat list (the LAST point with `ts ≤ t` / the FIRST with `ts > t`), equal timestamps across leaf boundaries included. -/
+theorem tree_lookup_eq_points (t : ITree.T) (ts : Int) (hwf : ITree.WF ITree.maxRecs t) :
+    (t ≠ .leaf [] → (ITree.grEq t ts = none ↔ Points.cntLE (ITree.points t) ts = 0)) ∧
+    (∀ r, ITree.grEq t ts = some r → r.idx = Points.grEqPos (ITree.points t) ts) ∧
+    (ITree.less t ts).map (·.idx) = Points.lessPos (ITree.points t) ts ∧
+    (ITree.less t ts = none ↔ Points.cntLE (ITree.points t) ts = (ITree.points t).length) :=
+  ITree.tree_lookup_eq_points ITree.maxRecs t ts hwf
+
 /-! ## counterexample for the open finding #4 -/
 
 /-- #4 — a batch the sparse index skipped lies below the indexed interval: points (100,0),(200,299) for records 0…299,
@@ -398,16 +549,5 @@ def range_eq_filter_full : Prop :=
     let st : RangedIter.St := { cks := (wj.chunks.map (fun c => (⟨c.id * 10, c.cnt⟩ : Selector.JChunk))).toArray, cidx := cidx, tss := tss, rmin := mn, rmax := mx }
     ((RangedIter.scan st 0 (all.length + 2)).2.toList.map (RangedIter.tsAt st)) =
       all.filter (fun t => (match lo with | some l => decide (l ≤ t) | none => true) && (match hi with | some h => decide (t ≤ h) | none => true))
-
-/-- the block tree restricted to one level-0 block is the `Points` list (all three `addInterval` cases); checked by the
-harness section `tree` on every sequence that never grew beyond one block, not proved -/
-def tree_eq_points_level0 : Prop :=
-  ∀ (ivs : List Iv), ivs.length ≤ 40 →
-    let (store, root) := ivs.foldl (fun (acc : IdxTree.Store × Option Nat) it =>
-        IdxTree.add 8 acc.1 acc.2 ⟨⟨it.p0.ts, it.p0.idx⟩, ⟨it.p1.ts, it.p1.idx⟩⟩) ((#[] : IdxTree.Store), none)
-    let pts := ivs.foldl add []
-    match root with
-    | none => True
-    | some r => (store[r]!).recs.toList.map (fun x => (⟨x.ts, x.idx⟩ : Pt)) = pts
 
 end Logrange.Props.C02
